@@ -24,13 +24,16 @@
    offset, special style outside mania). *)
 From RM Require Import Model.EncSpec Proofs.EncFmt Proofs.EncSimple Proofs.EncImage Proofs.EncEdit Proofs.EncRound.
 From RM Require Import Model.EncPathSpec Model.HitObjectSpec Proofs.EncPathRT Proofs.EncPathImage Proofs.EncPathExamples.
-From RM Require Import Model.EncObjCarry Proofs.EncObjTimes Proofs.EncObjectsRT.
+From RM Require Import Model.EncObjCarry Proofs.EncObjTimes Proofs.EncObjectsRT Proofs.Enc3Times.
 From RM Require Import Model.EncTimingSpec Proofs.ControlPointsFacts Proofs.EncTimingParse
   Proofs.EncCollect Proofs.EncGroups Proofs.EncTimingInv Proofs.EncTimingRT Proofs.EncTimingExample Proofs.EncTimingImage
   Proofs.TimingPointsValues.
 From RM Require Import Proofs.Enc2Values Proofs.Enc2Samples Proofs.Enc2Float Proofs.Enc2Timing Proofs.Enc2Slider Proofs.Enc2Examples.
 From RM Require Proofs.Enc2SvReal.
 From RM Require Import Proofs.Enc2SvRT Proofs.Enc2Framing Proofs.Enc2SampleShape.
+From RM Require Import Proofs.Enc3Framing Proofs.Enc3Timing Proofs.Enc3Nodes Proofs.Enc3Objects Proofs.Enc3Chrono Proofs.Enc3NodeInv Proofs.Enc3Map Proofs.Enc3Example.
+From RM Require Import Proofs.MapLevelFacts.
+From Coq Require Sorting.Sorted.
 From Coq Require Reals.
 From RM Require Model.Curve.
 From RM Require Import Model.DrvEnc Proofs.EncMapImage.
@@ -396,12 +399,91 @@ Proof.
 Qed.
 Print Assumptions C02_decoded_hold_round_trip_partial.
 
-(* integer-valued times (PARTIAL: the general IEEE statement is open, see Proofs/EncObjTimes.v) *)
+(* integer-valued times (PARTIAL: the general IEEE statement is FALSE -- C02_times_ok_refuted below,
+   known finding D33; wider classes: C02_times_ok_exact_difference, C02_times_ok_grid) *)
 Theorem C02_times_ok_partial :
   forall a b, Z.abs a < 2 ^ 53 -> 0 <= b < 2 ^ 53 -> Z.abs (a + b) < 2 ^ 53 ->
   spinner_time_ok (D.of_Z a) (D.of_Z b) /\ hold_time_ok (D.of_Z a) (D.of_Z b).
 Proof. exact decoded_times_ok_partial. Qed.
 Print Assumptions C02_times_ok_partial.
+
+(* The FULL statement of the time condition -- for all start / end times the line reader accepts,
+   with [spinner_dur s e] = (e - s).max(0.0) and [hold_dur s e] = max(s, e) - s the durations the
+   decoder stores:
+
+     forall s e, in_lim64 s = true -> in_lim64 e = true ->
+       spinner_time_ok s (spinner_dur s e) /\ hold_time_ok s (hold_dur s e)
+
+   is FALSE (known finding D33, confirmed on the crate: probes/D33_probe).  Start 2^-43, end
+   1024 + 2^-42: the stored duration is 1024 (end - start is a half-ulp tie), the written end is
+   1024, the duration read back is 1023.9999999999999, for the spinner and for the hold. *)
+Theorem C02_times_ok_refuted :
+  exists s e,
+    in_lim64 s = true /\ in_lim64 e = true /\
+    D.bits s = 4413527634823086080 /\ D.bits e = 4652218415073722369 /\
+    D.bits (spinner_dur s e) = 4652218415073722368 /\ D.bits (hold_dur s e) = 4652218415073722368 /\
+    D.bits (f64_max_lit (D.sub (D.add s (spinner_dur s e)) s) D.zero) = 4652218415073722367 /\
+    D.bits (D.sub (D.max s (D.add s (hold_dur s e))) s) = 4652218415073722367 /\
+    ~ spinner_time_ok s (spinner_dur s e) /\ ~ hold_time_ok s (hold_dur s e).
+Proof. exact times_ok_refuted. Qed.
+Print Assumptions C02_times_ok_refuted.
+
+(* what IS true, for all binary64 times: the duration survives whenever the end the encoder writes
+   is the end that was read ... *)
+Theorem C02_times_ok_of_end :
+  forall s e,
+  (D.add s (spinner_dur s e) = e -> spinner_time_ok s (spinner_dur s e)) /\
+  (D.add s (hold_dur s e) = e -> D.lt s e = true -> hold_time_ok s (hold_dur s e)).
+Proof. exact times_ok_of_end. Qed.
+Print Assumptions C02_times_ok_of_end.
+
+(* ... and whenever end - start is a binary64 number (no rounding in the decoder's subtraction).
+   Left open between this class and D33: pairs whose difference is rounded but whose duration
+   still survives (the common case for fractional times; the oracle checks each one). *)
+Theorem C02_times_ok_exact_difference :
+  forall s e, in_lim64 s = true -> in_lim64 e = true ->
+  Generic_fmt.generic_format Zaux.radix2 (SpecFloat.fexp 53 1024) (Rdefinitions.Rminus (B2R e) (B2R s)) ->
+  spinner_time_ok s (spinner_dur s e) /\ hold_time_ok s (hold_dur s e).
+Proof. exact times_ok_exact. Qed.
+Print Assumptions C02_times_ok_exact_difference.
+
+(* in particular: both times multiples of 2^-k, difference below 2^(53-k); k = 0: whole
+   milliseconds within the parse limits; every pair of accepted times on the 2^-21 ms grid *)
+Theorem C02_times_ok_grid :
+  forall k a b s e,
+  0 <= k <= 1074 -> in_lim64 s = true -> in_lim64 e = true ->
+  B2R s = Rdefinitions.Rmult (Rdefinitions.IZR a) (Raux.bpow Zaux.radix2 (- k)) ->
+  B2R e = Rdefinitions.Rmult (Rdefinitions.IZR b) (Raux.bpow Zaux.radix2 (- k)) ->
+  Z.abs (b - a) < 2 ^ 53 ->
+  spinner_time_ok s (spinner_dur s e) /\ hold_time_ok s (hold_dur s e).
+Proof. exact times_ok_grid. Qed.
+Print Assumptions C02_times_ok_grid.
+
+Theorem C02_times_ok_whole_milliseconds :
+  forall a b, Z.abs a <= max_parse_value -> Z.abs b <= max_parse_value ->
+  spinner_time_ok (D.of_Z a) (spinner_dur (D.of_Z a) (D.of_Z b)) /\
+  hold_time_ok (D.of_Z a) (hold_dur (D.of_Z a) (D.of_Z b)).
+Proof. exact times_ok_whole. Qed.
+Print Assumptions C02_times_ok_whole_milliseconds.
+
+Theorem C02_times_ok_grid21 :
+  forall a b s e, in_lim64 s = true -> in_lim64 e = true ->
+  B2R s = Rdefinitions.Rmult (Rdefinitions.IZR a) (Raux.bpow Zaux.radix2 (- 21)) ->
+  B2R e = Rdefinitions.Rmult (Rdefinitions.IZR b) (Raux.bpow Zaux.radix2 (- 21)) ->
+  spinner_time_ok s (spinner_dur s e) /\ hold_time_ok s (hold_dur s e).
+Proof. exact times_ok_grid21. Qed.
+Print Assumptions C02_times_ok_grid21.
+
+(* Sterbenz: an end within a factor two of the start -- the object does not last longer than the time
+   at which it starts, i.e. every spinner / hold except at the very beginning of a map -- has an
+   exact difference, whatever the fractional digits *)
+Theorem C02_times_ok_sterbenz :
+  forall s e, in_lim64 s = true -> in_lim64 e = true ->
+  Rdefinitions.Rle (Rdefinitions.Rdiv (B2R s) (Rdefinitions.IZR 2)) (B2R e) /\
+  Rdefinitions.Rle (B2R e) (Rdefinitions.Rmult (Rdefinitions.IZR 2) (B2R s)) ->
+  spinner_time_ok s (spinner_dur s e) /\ hold_time_ok s (hold_dur s e).
+Proof. exact times_ok_sterbenz. Qed.
+Print Assumptions C02_times_ok_sterbenz.
 
 Theorem C02_int_end_in_limit :
   forall a b, Z.abs a < 2 ^ 53 -> Z.abs b < 2 ^ 53 -> Z.abs (a + b) <= max_parse_value ->
@@ -828,45 +910,412 @@ Example C02_sliders_example :
   end.
 Proof. exact sliders_example. Qed.
 
-(* ---------- status of the remaining obligations ----------
+(* ---------- T02e, node samples (outside D31) ---------- *)
+(* Vocabulary (Proofs/Enc3Nodes.v).  [node_info v c (Some l)]: the SampleBankInfo the decoder builds
+   from the `normal:addition` piece the encoder writes for the sample list l (banks of the first
+   normal / first addition sample, no file name, volume v, custom index c); [node_sound]: the sound
+   bits written for it; [reread_nodes 0 0 n 0 nodes]: node i = convert_sound_type (node_info 0 0 (nth i
+   nodes)) (node_sound (nth i nodes)), for i < n. *)
+
+(* C02_slider_round_trip_partial with EVERY field of the re-read slider: besides start, position,
+   control points, repeat count, node count, expected length and THE SAME CURVE -- the mode, the
+   new-combo flag as the parser state forces it, the combo offset, the slider's own samples (its
+   extras field is read banks-only) and its node samples, exactly *)
+Theorem C02_slider_round_trip_full :
+  forall lm fmt_f64 fmt_f32 fmt_int, fmt_ok fmt_f64 fmt_f32 fmt_int -> fmt_f32_int fmt_f32 fmt_int ->
+  forall mode h s c l,
+  h_kind h = KSlider s -> elen_img h ->
+  slider_curve lm s = Done c ->
+  slider_ok h s (written_of (sl_expected_dist s) c) = true ->
+  object_line (dist_real lm) mode h = Done l ->
+  forall st, ho_mode st = sl_mode s ->
+  exists st' o s',
+    parse_hit_objects st (render fmt_f64 fmt_f32 fmt_int l) = Done (st', Ok) /\
+    ho_objects st' = ho_objects st ++ [o] /\
+    h_start o = h_start h /\ h_kind o = KSlider s' /\
+    sl_pos s' = sl_pos s /\
+    sl_control_points s' = sl_control_points s /\
+    sl_repeat_count s' = sl_repeat_count s /\
+    length (sl_node_samples s') = Z.to_nat (sl_repeat_count s + 2) /\
+    sl_expected_dist s' = reread_len (written_of (sl_expected_dist s) c) /\
+    slider_curve lm s' = Done c /\
+    sl_mode s' = sl_mode s /\
+    sl_new_combo s' = forced_new_combo st (sl_new_combo s) /\
+    sl_combo_offset s' = (if sl_new_combo s then sl_combo_offset s else 0) /\
+    sl_node_samples s' = reread_nodes 0 0 (Z.to_nat (sl_repeat_count s + 2)) 0 (sl_node_samples s) /\
+    h_samples o = convert_sound_type (node_info 0 0 (Some (h_samples h))) (node_sound (Some (h_samples h))).
+Proof. exact slider_round_trip_full. Qed.
+Print Assumptions C02_slider_round_trip_full.
+
+(* names and banks of a node survive: a sample list of the decoder's image ([samples_image]) without
+   a file name is re-read -- and, after the second decode has applied ANY sample point, still is --
+   with the same names, banks and bank-given flags.  (The re-read list is what an object line of a
+   non-mania map would give: node_reread_is_reread_samples.) *)
+Theorem C02_slider_node_samples_round_trip :
+  forall l, samples_image l = true -> first_file l = None ->
+  carry_samples (convert_sound_type (node_info 0 0 (Some l)) (node_sound (Some l))) = carry_samples l /\
+  forall p, carry_samples (map (sp_apply p) (convert_sound_type (node_info 0 0 (Some l)) (node_sound (Some l)))) = carry_samples l.
+Proof. exact node_reread_carry. Qed.
+Print Assumptions C02_slider_node_samples_round_trip.
+
+(* D31 (known finding): a re-read node NEVER has a file name, whatever the written node was -- the
+   edge-set field has no slot for it; a node with a file name comes back with the normal sample *)
+Theorem C02_slider_node_file_name_lost :
+  forall v c o s, first_file (convert_sound_type (node_info v c o) s) = None.
+Proof. exact node_reread_no_file. Qed.
+Print Assumptions C02_slider_node_file_name_lost.
+
+(* ---------- the computed sections composed with the framing theorem ---------- *)
+
+(* T02d composed (in the style of C02_decode_of_encoding_simple_sections): for every decoded map m
+   outside D23 and the recorded classes of T02d ([rt_classes] at the map's own mode: D28 / D8, D27,
+   D12, D26 / D32), every line list ls the encoder produces for it, every formatting satisfying
+   [fmt_ok] / [no_leading_zero] and whatever the curve function of the second decode: if the second
+   decode of `map render ls` succeeds with m2, then m2 has the timing points of m and the
+   slider-velocity / kiai / scroll-speed timelines of m2 and m agree at every time.  (The [General]
+   section of the encoding is parsed before [TimingPoints]: the mode in force while the timing lines
+   are read is the map's mode.) *)
+Theorem C02_decode_of_encoding_timing :
+  forall fmt_f64 fmt_f32 fmt_int, fmt_ok fmt_f64 fmt_f32 fmt_int -> no_leading_zero fmt_int ->
+  forall dist events lines m c ls dist2 m2,
+  Forall no_lf_line lines -> decode_beatmap dist lines = Done m -> d23_class m = false ->
+  enc_control_points dist events m = Done c ->
+  rt_classes (g_mode (hov_general (bmv_ho m))) c = true ->
+  encode_lines dist events m = Done ls ->
+  decode_beatmap dist2 (map (render fmt_f64 fmt_f32 fmt_int) ls) = Done m2 ->
+  let c0 := hov_control_points (bmv_ho m) in
+  let c2 := hov_control_points (bmv_ho m2) in
+  cp_timing c2 = cp_timing c0 /\
+  (forall t, sv_at c2 t = sv_at c0 t) /\
+  (forall t, kiai_at c2 t = kiai_at c0 t) /\
+  (forall t, scroll_at c2 t = scroll_at c0 t).
+Proof.
+  intros f64 f32 fi Hfmt Hlead dist events lines m c ls dist2 m2 H1 H2 H3 H4 H5 H6 H7.
+  exact (decoded_encoding_timing f64 f32 fi Hfmt Hlead dist events lines m c ls dist2 m2 H1 H2 H3 H4 H5 H6 H7).
+Qed.
+Print Assumptions C02_decode_of_encoding_timing.
+
+(* how the second decode computes its control points and hit objects from the two computed
+   sections of the encoding: [tp_run] / [tp_finish] on the [TimingPoints] body and [ho_run] on the
+   [HitObjects] body, both in the General state of [read_back m]; then the map-level processing
+   with the breaks, slider multiplier and mode of [read_back m] *)
+Theorem C02_encoding_computed_sections :
+  forall fmt_f64 fmt_f32 fmt_int, fmt_ok fmt_f64 fmt_f32 fmt_int ->
+  forall dist events lines m ls dist2 m2,
+  Forall no_lf_line lines -> decode_beatmap dist lines = Done m -> d23_class m = false ->
+  encode_lines dist events m = Done ls ->
+  decode_beatmap dist2 (map (render fmt_f64 fmt_f32 fmt_int) ls) = Done m2 ->
+  exists tp ho,
+    enc_timing_points dist events m = Done (header_tok SecTimingPoints :: tp) /\
+    object_lines dist (g_mode (hov_general (bmv_ho m))) (hov_hit_objects (bmv_ho m)) = Done ho /\
+    let r := bmv_ho (read_back m) in
+    forall ts rs, tp_run (tp_init (tpg_of (hov_general r))) (map (render fmt_f64 fmt_f32 fmt_int) tp) = Done (ts, rs) ->
+      tp_finish ts = Done (hov_control_points (bmv_ho m2)) /\
+      exists hs hrs,
+        ho_run (ho_create (g_mode (hov_general r))) (map (render fmt_f64 fmt_f32 fmt_int) ho) = Done (hs, hrs) /\
+        finish_hit_objects dist2 (hov_control_points (bmv_ho m2)) (ev_breaks (hov_events r))
+          (d_slider_multiplier (hov_difficulty r)) (g_mode (hov_general r)) (ho_objects hs) =
+        Done (hov_hit_objects (bmv_ho m2)).
+Proof.
+  intros f64 f32 fi Hfmt dist events lines m ls dist2 m2 Hl Hd H23 He Hd2.
+  exact (encoding_computed_sections_decoded f64 f32 fi Hfmt dist events m ls dist2 m2
+           (decode_image_inv dist lines m Hl Hd H23) He Hd2).
+Qed.
+Print Assumptions C02_encoding_computed_sections.
+
+(* T02b / T02e composed.  Vocabulary (Proofs/Enc3Objects.v, Proofs/Enc3Map.v):
+   [final_rel lm h o]: what the second decode's object [o] is with respect to the written object [h]
+     -- a circle / spinner / hold: carry_object o = carry_object h (start, kind, position, combo flag
+     and offset, duration, sample names and banks); a slider: the conclusion of
+     C02_slider_round_trip_partial (same start, position, control points, repeat count, node count,
+     expected length re-read from the written one, THE SAME CURVE), the same mode and new-combo flag,
+     the combo offset as far as it is carried (next to the new-combo bit), names and banks of the
+     slider's own samples when they hold no file name (a decoded slider's never do: its extras are
+     read banks-only) and names and banks of every node that is in the decoder's image and holds no
+     file name (a file name on a node is class D31);
+   [objects_classes lm m]: the recorded classes of the hit-object part -- every object outside its
+     classes ([obj_classes]: D30; spinner / hold: D26 and the time condition, i.e. outside D33;
+     slider: [slider_ok] = D13 / D17 / consecutive Catmull / D21 / D30, a computable curve, and read
+     under the map's mode = outside D22), and [combo_chain]: the new-combo flags the decoder derives
+     from the order of the lines (first object, after a spinner, first object after each break) are
+     already set -- true when the hit-object lines of the input were in chronological order, which
+     is the hypothesis of the property.
+   The map-level processing of the second decode is shown to reproduce the stored values: the
+   stable sort is the identity on the (sorted: C15) written list, the break post-processing and the
+   parser re-derive flags that are set, SamplePoint::apply only touches what [carry_object] erases. *)
+Theorem C02_decode_of_encoding_hit_objects :
+  forall lm fmt_f64 fmt_f32 fmt_int,
+  fmt_ok fmt_f64 fmt_f32 fmt_int -> no_leading_zero fmt_int -> fmt_f32_int fmt_f32 fmt_int ->
+  forall events lines m c ls dist2 m2,
+  Forall no_lf_line lines -> decode_beatmap (dist_real lm) lines = Done m -> d23_class m = false ->
+  enc_control_points (dist_real lm) events m = Done c ->
+  rt_classes (g_mode (hov_general (bmv_ho m))) c = true ->
+  objects_classes lm m ->
+  encode_lines (dist_real lm) events m = Done ls ->
+  decode_beatmap dist2 (map (render fmt_f64 fmt_f32 fmt_int) ls) = Done m2 ->
+  Forall2 (final_rel lm) (hov_hit_objects (bmv_ho m)) (hov_hit_objects (bmv_ho m2)).
+Proof. exact decoded_encoding_objects. Qed.
+Print Assumptions C02_decode_of_encoding_hit_objects.
+
+(* the [HitObjects] body alone, line by line, in any parser state of the map's mode: every line
+   returns, and the list of added objects is in the relation [raw_chain] with the written objects
+   (circle / spinner / hold: EXACTLY [reread_f], a function of "the parser forces a new combo here"
+   and the object; slider: T02e) *)
+Theorem C02_hit_object_lines_reread :
+  forall lm fmt_f64 fmt_f32 fmt_int, fmt_ok fmt_f64 fmt_f32 fmt_int -> fmt_f32_int fmt_f32 fmt_int ->
+  forall mode objs ls,
+  object_lines (dist_real lm) mode objs = Done ls -> Forall (line_hyps lm mode) objs ->
+  forall st, ho_mode st = mode ->
+  exists st' rs raws,
+    ho_run st (map (render fmt_f64 fmt_f32 fmt_int) ls) = Done (st', rs) /\
+    ho_objects st' = ho_objects st ++ raws /\
+    raw_chain lm mode (fs st) objs raws.
+Proof. exact object_lines_reread. Qed.
+Print Assumptions C02_hit_object_lines_reread.
+
+(* two more facts about EVERY decoded map (any input): every node of every slider has a sample list
+   of the decoder's image, and a slider's own sample list holds no file name (its extras field is
+   read banks-only) -- carried through the line parser, the stable sort, the break post-processing
+   and the per-object loop.  They discharge the two image premises of the slider clause of
+   [final_rel]: [final_rel_decoded] is [final_rel] without them; what remains as a premise is "the
+   node holds no file name", i.e. outside class D31. *)
+Theorem C02_decoded_slider_nodes_image :
+  forall dist lines m,
+  Forall no_lf_line lines -> decode_beatmap dist lines = Done m ->
+  Forall nodes_image (hov_hit_objects (bmv_ho m)).
+Proof. exact decoded_nodes_image. Qed.
+Print Assumptions C02_decoded_slider_nodes_image.
+
+Theorem C02_final_rel_of_decoded_objects :
+  forall lm objs out,
+  Forall nodes_image objs -> Forall2 (final_rel lm) objs out -> Forall2 (final_rel_decoded lm) objs out.
+Proof. exact final_rel_strengthen_all. Qed.
+Print Assumptions C02_final_rel_of_decoded_objects.
+
+(* ---------- the top-level statement ---------- *)
+
+(* ONE statement: for every decoded map m (decoded with the real curve model, any libm) outside the
+   recorded classes -- D23 (simple sections), [rt_classes] (timing: D28 / D8, D27, D12, D26 / D32),
+   [objects_classes] (hit objects: D30, D26, D33, D13 / D17 / consecutive Catmull, D21, D22, and the
+   chronological-order hypothesis of the property) --, every line list the encoder produces for it,
+   every formatting satisfying the Display hypotheses and whatever the curve function of the second
+   decode: if the second decode succeeds with m2, then
+     - version, general, editor, metadata, difficulty, events and colours of m2 are those of
+       [read_back m]                                                                   (T02a),
+     - m2 has the timing points of m, and the slider-velocity / kiai / scroll-speed timelines
+       agree at every time                                                              (T02d),
+     - the hit objects correspond one to one in [final_rel_decoded]              (T02b / T02e).
+   Not in [final_rel]: the slider velocity (C02_round_trip_velocities below, same hypotheses), file
+   names on nodes (class D31: C02_slider_node_file_name_lost). *)
+Theorem C02_round_trip_decoded_map :
+  forall lm fmt_f64 fmt_f32 fmt_int,
+  fmt_ok fmt_f64 fmt_f32 fmt_int -> no_leading_zero fmt_int -> fmt_f32_int fmt_f32 fmt_int ->
+  forall events lines m c ls dist2 m2,
+  Forall no_lf_line lines -> decode_beatmap (dist_real lm) lines = Done m -> d23_class m = false ->
+  enc_control_points (dist_real lm) events m = Done c ->
+  rt_classes (g_mode (hov_general (bmv_ho m))) c = true ->
+  objects_classes lm m ->
+  encode_lines (dist_real lm) events m = Done ls ->
+  decode_beatmap dist2 (map (render fmt_f64 fmt_f32 fmt_int) ls) = Done m2 ->
+  let c0 := hov_control_points (bmv_ho m) in
+  let c2 := hov_control_points (bmv_ho m2) in
+  (bmv_version m2 = bmv_version m /\
+   hov_general (bmv_ho m2) = hov_general (bmv_ho (read_back m)) /\
+   bmv_editor m2 = bmv_editor (read_back m) /\
+   bmv_metadata m2 = bmv_metadata (read_back m) /\
+   hov_difficulty (bmv_ho m2) = hov_difficulty (bmv_ho (read_back m)) /\
+   hov_events (bmv_ho m2) = hov_events (bmv_ho (read_back m)) /\
+   bmv_colors m2 = bmv_colors (read_back m)) /\
+  (cp_timing c2 = cp_timing c0 /\
+   (forall t, sv_at c2 t = sv_at c0 t) /\
+   (forall t, kiai_at c2 t = kiai_at c0 t) /\
+   (forall t, scroll_at c2 t = scroll_at c0 t)) /\
+  Forall2 (final_rel_decoded lm) (hov_hit_objects (bmv_ho m)) (hov_hit_objects (bmv_ho m2)).
+Proof. exact round_trip_decoded_map. Qed.
+Print Assumptions C02_round_trip_decoded_map.
+
+(* [combo_chain] is a FACT about every decoded map whose accepted hit-object lines were in
+   chronological order, the hypothesis of the property.  [raw_objects lines]: the object list the line
+   parsers have built when the last line has been read (file order, before the stable sort). *)
+Theorem C02_combo_chain_of_chronological_input :
+  forall dist lines m,
+  decode_beatmap dist lines = Done m ->
+  Sorted.StronglySorted Z.le (map start_key (raw_objects lines)) ->
+  combo_chain (ev_breaks (hov_events (bmv_ho m))) true (hov_hit_objects (bmv_ho m)) = true.
+Proof. exact decoded_combo_chain. Qed.
+Print Assumptions C02_combo_chain_of_chronological_input.
+
+(* the top-level statement with the property's own hypothesis -- chronological hit-object lines --
+   and otherwise the recorded classes only *)
+Theorem C02_round_trip_chronological :
+  forall lm fmt_f64 fmt_f32 fmt_int,
+  fmt_ok fmt_f64 fmt_f32 fmt_int -> no_leading_zero fmt_int -> fmt_f32_int fmt_f32 fmt_int ->
+  forall events lines m c ls dist2 m2,
+  Forall no_lf_line lines -> decode_beatmap (dist_real lm) lines = Done m -> d23_class m = false ->
+  Sorted.StronglySorted Z.le (map start_key (raw_objects lines)) ->
+  enc_control_points (dist_real lm) events m = Done c ->
+  rt_classes (g_mode (hov_general (bmv_ho m))) c = true ->
+  Forall (obj_classes lm (g_mode (hov_general (bmv_ho m)))) (hov_hit_objects (bmv_ho m)) ->
+  encode_lines (dist_real lm) events m = Done ls ->
+  decode_beatmap dist2 (map (render fmt_f64 fmt_f32 fmt_int) ls) = Done m2 ->
+  let c0 := hov_control_points (bmv_ho m) in
+  let c2 := hov_control_points (bmv_ho m2) in
+  (bmv_version m2 = bmv_version m /\
+   hov_general (bmv_ho m2) = hov_general (bmv_ho (read_back m)) /\
+   bmv_editor m2 = bmv_editor (read_back m) /\
+   bmv_metadata m2 = bmv_metadata (read_back m) /\
+   hov_difficulty (bmv_ho m2) = hov_difficulty (bmv_ho (read_back m)) /\
+   hov_events (bmv_ho m2) = hov_events (bmv_ho (read_back m)) /\
+   bmv_colors m2 = bmv_colors (read_back m)) /\
+  (cp_timing c2 = cp_timing c0 /\
+   (forall t, sv_at c2 t = sv_at c0 t) /\
+   (forall t, kiai_at c2 t = kiai_at c0 t) /\
+   (forall t, scroll_at c2 t = scroll_at c0 t)) /\
+  Forall2 (final_rel_decoded lm) (hov_hit_objects (bmv_ho m)) (hov_hit_objects (bmv_ho m2)).
+Proof. exact round_trip_chronological. Qed.
+Print Assumptions C02_round_trip_chronological.
+
+Example C02_example_is_chronological :
+  sortedb (map start_key (raw_objects (lines_of_text all_kinds_text))) = true /\
+  (forall l, sortedb l = true -> Sorted.StronglySorted Z.le l).
+Proof. exact (conj all_kinds_chronological sortedb_sorted). Qed.
+
+(* the velocities of corresponding sliders agree as well (under the same hypotheses): the velocity
+   of a decoded slider is a closed form over SliderMultiplier, mode, timing points and the
+   slider-velocity timeline at its start time -- all shown equal above -- whatever the two curve
+   functions *)
+Theorem C02_round_trip_velocities :
+  forall lm fmt_f64 fmt_f32 fmt_int,
+  fmt_ok fmt_f64 fmt_f32 fmt_int -> no_leading_zero fmt_int -> fmt_f32_int fmt_f32 fmt_int ->
+  forall events lines m c ls dist2 m2,
+  Forall no_lf_line lines -> decode_beatmap (dist_real lm) lines = Done m -> d23_class m = false ->
+  enc_control_points (dist_real lm) events m = Done c ->
+  rt_classes (g_mode (hov_general (bmv_ho m))) c = true ->
+  objects_classes lm m ->
+  encode_lines (dist_real lm) events m = Done ls ->
+  decode_beatmap dist2 (map (render fmt_f64 fmt_f32 fmt_int) ls) = Done m2 ->
+  Forall2 same_velocity (hov_hit_objects (bmv_ho m)) (hov_hit_objects (bmv_ho m2)).
+Proof. exact round_trip_velocities. Qed.
+Print Assumptions C02_round_trip_velocities.
+
+(* non-vacuity: the hypotheses are satisfiable by a concrete decoded map with a circle, a slider,
+   a spinner and a hold (plus a break and an inherited timing line), real curve and slider-event
+   models: it is outside every class ... *)
+Example C02_round_trip_hypotheses_example :
+  match decode_beatmap (dist_real lm0) (lines_of_text all_kinds_text) with
+  | Done m =>
+      match enc_control_points (dist_real lm0) events_real m with
+      | Done c =>
+          forallb (fun l => negb (memb ch_lf l)) (lines_of_text all_kinds_text) = true /\
+          d23_class m = false /\
+          rt_classes (g_mode (hov_general (bmv_ho m))) c = true /\
+          objects_classes_b lm0 m = true /\
+          map (fun h => kind_tag (h_kind h)) (hov_hit_objects (bmv_ho m)) = [0; 1; 2; 3] /\
+          match encode_lines (dist_real lm0) events_real m with Done ls => length ls = 48%nat | _ => False end
+      | _ => False
+      end
+  | _ => False
+  end.
+Proof. exact all_kinds_facts. Qed.
+
+(* ... and the node clause of [final_rel] is not vacuous: the example's slider has repeat_count + 2 = 2
+   nodes, all in the decoder's image and without a file name, and so are its own samples *)
+Example C02_round_trip_nodes_example :
+  match decode_beatmap (dist_real lm0) (lines_of_text all_kinds_text) with
+  | Done m => map nodes_facts (hov_hit_objects (bmv_ho m)) = [[]; [2; 2; 1; 1]; []; []]
+  | _ => False
+  end.
+Proof. exact all_kinds_nodes. Qed.
+
+Example C02_objects_classes_checker :
+  forall lm m, objects_classes_b lm m = true -> objects_classes lm m.
+Proof. exact objects_classes_b_ok. Qed.
+
+(* ... so the conclusion holds of it, for every formatting and every second curve function *)
+Example C02_round_trip_example :
+  forall fmt_f64 fmt_f32 fmt_int, fmt_ok fmt_f64 fmt_f32 fmt_int -> no_leading_zero fmt_int -> fmt_f32_int fmt_f32 fmt_int ->
+  exists m c ls,
+    decode_beatmap (dist_real lm0) (lines_of_text all_kinds_text) = Done m /\
+    enc_control_points (dist_real lm0) events_real m = Done c /\
+    encode_lines (dist_real lm0) events_real m = Done ls /\
+    d23_class m = false /\ rt_classes (g_mode (hov_general (bmv_ho m))) c = true /\ objects_classes lm0 m /\
+    map (fun h => kind_tag (h_kind h)) (hov_hit_objects (bmv_ho m)) = [0; 1; 2; 3] /\
+    forall dist2 m2, decode_beatmap dist2 (map (render fmt_f64 fmt_f32 fmt_int) ls) = Done m2 ->
+      let c0 := hov_control_points (bmv_ho m) in
+      let c2 := hov_control_points (bmv_ho m2) in
+      (bmv_version m2 = bmv_version m /\
+       hov_general (bmv_ho m2) = hov_general (bmv_ho (read_back m)) /\
+       bmv_editor m2 = bmv_editor (read_back m) /\
+       bmv_metadata m2 = bmv_metadata (read_back m) /\
+       hov_difficulty (bmv_ho m2) = hov_difficulty (bmv_ho (read_back m)) /\
+       hov_events (bmv_ho m2) = hov_events (bmv_ho (read_back m)) /\
+       bmv_colors m2 = bmv_colors (read_back m)) /\
+      (cp_timing c2 = cp_timing c0 /\
+       (forall t, sv_at c2 t = sv_at c0 t) /\
+       (forall t, kiai_at c2 t = kiai_at c0 t) /\
+       (forall t, scroll_at c2 t = scroll_at c0 t)) /\
+      Forall2 (final_rel_decoded lm0) (hov_hit_objects (bmv_ho m)) (hov_hit_objects (bmv_ho m2)).
+Proof. exact all_kinds_round_trip. Qed.
+
+(* ---------- status of the obligations ----------
+
+   TOP LEVEL  C02_round_trip_decoded_map (and C02_round_trip_chronological, with "the accepted
+     hit-object lines are chronological" in place of [combo_chain]): ONE statement for a decoded map
+     outside the recorded classes -- simple sections (T02a), timing points and the three timelines (T02d), hit objects one
+     to one in [final_rel] (T02b / T02e) -- about decoding `map render (encode_lines m)`, i.e. the
+     per-section results pushed through the framing theorem (C05) and the Beatmap decoder's
+     delegation (C07): C02_decode_of_encoding_simple_sections, C02_decode_of_encoding_timing,
+     C02_decode_of_encoding_hit_objects, C02_encoding_computed_sections, C02_encoding_is_routed.
+     Hypotheses satisfiable: C02_round_trip_hypotheses_example / C02_round_trip_example (a decoded
+     map with a circle, a slider, a spinner, a hold, a break and an inherited timing line; real curve
+     and slider-event models).  The lines are the decoder's line list; the byte / text layer is
+     C08 / C10.
 
    T02b  circles / spinners / holds: MECHANISED per line, up to [carry_object] (per-sample volume /
-     custom index / suffix / layering erased), and for decoded maps with the hypotheses discharged:
-     C02_decoded_circle_round_trip has no hypothesis beyond class D30 (sample file name ending in
-     white space: C04_sample_name_trimmed_refuted); spinners and holds additionally exclude D26
-     (start + duration leaves the parse limit by rounding: C02_decoded_end_beyond_limit_refuted)
-     and keep ONE open side condition, [spinner_time_ok] / [hold_time_ok] (fl(fl(start + d) - start)
-     = d) for non-integer times (C02_times_ok_partial covers integer times).  [object_ok],
-     [samples_image], [kind_image] are facts about every decoded map (C02_decoded_object_ok,
-     C02_decoded_objects_shape, C04_decoded_samples_image).
+     custom index / suffix / layering erased), for decoded maps with the hypotheses discharged
+     (C02_decoded_circle_round_trip: no hypothesis beyond class D30; spinners and holds additionally
+     exclude D26 and D33), and COMPOSED over the whole [HitObjects] section and the map-level
+     processing of the second decode (C02_hit_object_lines_reread, C02_decode_of_encoding_hit_objects:
+     the stable sort is the identity on the sorted written list, the parser and the break
+     post-processing re-derive new-combo flags that are set -- [combo_chain], PROVED of every
+     decoded map whose accepted hit-object lines were chronological, the property's hypothesis:
+     C02_combo_chain_of_chronological_input, C02_round_trip_chronological --, SamplePoint::apply
+     touches only what carry_object erases).
+     The time condition fl(fl(start + d) - start) = d is FALSE in general: C02_times_ok_refuted,
+     known finding D33 (confirmed on the crate).  PROVED for every pair of accepted times whose
+     difference is a binary64 number (C02_times_ok_exact_difference; binary grids: C02_times_ok_grid,
+     C02_times_ok_grid21; whole milliseconds: C02_times_ok_whole_milliseconds, C02_times_ok_partial;
+     any fractional times with start / 2 <= end <= 2 * start: C02_times_ok_sterbenz)
+     and whenever the written end is the end that was read (C02_times_ok_of_end).  OPEN between these
+     classes and D33: pairs whose difference is rounded but whose duration survives (most
+     fractional times; the oracle checks each instance).
 
    T02c  slider path strings: MECHANISED in full (C02_path_round_trip on the decoder's image
      C02_path_image_is_decoder_image, outside D13 / D17 / consecutive Catmull).
 
    T02d  timing points and the three timelines: MECHANISED for decoded maps
-     (C02_timing_round_trip_decoded).  The value side conditions (clamps, finite times), "written
-     numbers within the parse limits" and the float fact "every stored velocity survives
-     -100/sv -> 100/-x" are FACTS about every decoded map (C02_decoded_control_point_limits,
-     C02_written_beat_fields_within_limits, C02_decoded_timing_invariants,
-     C02_image_sv_round_trips from the real-number theorem C02_three_divisions).  The only
-     hypotheses left are the recorded classes [rt_classes], every clause of which is refuted by a
-     decodable input: separated times (D28, D8), separated values (D27), scroll speed following
-     slider velocity (D12), sample-point times within the limits (D26, D32).
+     (C02_timing_round_trip_decoded) and COMPOSED with the framing theorem
+     (C02_decode_of_encoding_timing: the timing points and timelines of the map the second decode
+     returns).  The value side conditions, "written numbers within the parse limits" and "every stored
+     velocity survives -100/sv -> 100/-x" are FACTS about every decoded map; the only hypotheses are
+     the recorded classes [rt_classes] (D28 / D8, D27, D12, D26 / D32), each refuted by a decodable
+     input.
 
-   T02e  sliders end to end: MECHANISED per line (C02_slider_round_trip_partial): accepted in every
-     parser state of the slider's mode, same start time, position, control points, repeat count,
-     node count, and the SAME CURVE (path and cumulative lengths), through the expected-length
-     semantics (explicit length re-requested; natural length written, re-read as an explicit length
-     equal to the natural one, which keeps the natural curve: C02_curve_reread, from C16's exact
-     comparison); the velocity is a function of data shown equal by T02a / T02d
-     (C02_slider_velocity_round_trip).  Hypotheses: [slider_ok] (outside D13 / D17 / consecutive
-     Catmull / D21, representable samples: outside D30) and the parser state's mode (class D22 on
-     the original input).  Not stated: node SAMPLE names/banks of the re-read slider (file names on
-     nodes are lost: new class D31), and the composition of the [TimingPoints] / [HitObjects]
-     per-section results with the framing theorem (done for the simple sections:
-     C02_decode_of_encoding_simple_sections, C02_encoding_is_routed).
+   T02e  sliders end to end: MECHANISED per line (C02_slider_round_trip_partial, and with every field
+     of the re-read slider C02_slider_round_trip_full) and COMPOSED (the slider clause of
+     [final_rel]): same start, position, control points, repeat count, node count, THE SAME CURVE,
+     mode, new-combo flag, names and banks of its own samples and of every node that is in the
+     decoder's image and holds no file name (C02_slider_node_samples_round_trip; a file name on a
+     node is class D31: C02_slider_node_file_name_lost).  Hypotheses: [slider_ok] (outside D13 / D17 /
+     consecutive Catmull / D21 / D30), a computable curve, and "read under the map's mode" (the other
+     order on the original input is class D22).  The image premises of the node clause are FACTS
+     about every decoded map (C02_decoded_slider_nodes_image), discharged in the top-level theorems
+     ([final_rel_decoded]).  The velocities of corresponding sliders agree: C02_round_trip_velocities
+     (a separate statement under the same hypotheses).  LEFT OPEN: the combo offset of a slider is
+     shown to survive only next to the new-combo bit (an offset without the bit cannot be produced
+     by the decoder; not mechanised for sliders).
 
    Everything above is also covered by the bit-exact `enc` correspondence (decode + encode model
    against the crate, slider files included) and by the C02 oracle, which compares exactly the
    items the property lists on the real crate; the classes D12, D13, D17, D21, D22, D23, D26, D27,
-   D28, D30, D31 are the only failures it reports on the pinned tree. *)
+   D28, D30, D31, D33 are the only failures it reports on the pinned tree. *)
